@@ -435,3 +435,7 @@ mod tests {
         assert_eq!(c.eval(2.0), 0.5);
     }
 }
+
+#[cfg(kani)]
+#[path = "/verif/kani/spline.rs"]
+pub(crate) mod verif_kani;
